@@ -700,6 +700,7 @@ func (s *schemaBuilder) buildFromStruct(decl *entityDecl, st *types.Struct, sche
 	// First check for all of schemas
 	var tgt *spec.Schema
 	hasAllOf := false
+	namedEmbedded := make(map[int]bool)
 
 	for i := 0; i < st.NumFields(); i++ {
 		fld := st.Field(i)
@@ -734,11 +735,17 @@ func (s *schemaBuilder) buildFromStruct(decl *entityDecl, st *types.Struct, sche
 			continue
 		}
 
-		_, ignore, _, _, err := parseJSONTag(afld)
+		jsonName, ignore, _, _, err := parseJSONTag(afld)
 		if err != nil {
 			return err
 		}
 		if ignore {
+			continue
+		}
+
+		if jsonName != "" && !allOfMember(afld.Doc) {
+			// an embedded field with a name in its json tag is an ordinary member for encoding/json
+			namedEmbedded[i] = true
 			continue
 		}
 
@@ -801,7 +808,7 @@ func (s *schemaBuilder) buildFromStruct(decl *entityDecl, st *types.Struct, sche
 		fld := st.Field(i)
 		tg := st.Tag(i)
 
-		if fld.Embedded() {
+		if fld.Embedded() && !namedEmbedded[i] {
 			continue
 		}
 
